@@ -427,9 +427,9 @@ pub fn run_check(spec: &CheckSpec, cfg: &RunCfg) -> i32 {
                         }
                     }
                     let num = |key: &str| -> u64 { rec.split(key).nth(1).and_then(|x| x.split_whitespace().next()).and_then(|x| x.parse().ok()).unwrap_or(0) };
-                    let i = num("run=");
+                    let i = num(" run=");
                     let plan = (fam.gen)(cfg.seed, i, &gctx);
-                    let (ti, oi) = (num("task=") as usize, num("op=") as usize);
+                    let (ti, oi) = (num(" task=") as usize, num(" op=") as usize);
                     let kind = plan.tasks.get(ti).and_then(|t| t.ops.get(oi)).map_or("", |o| o.kind()).to_string();
                     let class = if code == crate::guard::EXIT_HANG { "hang" } else { "memory-fault" };
                     let v = Violation { property: spec.prop.into(), class: class.into(), task: ti, op: oi, op_kind: kind, detail: rec.trim().to_string() };
@@ -522,8 +522,10 @@ pub fn run_check(spec: &CheckSpec, cfg: &RunCfg) -> i32 {
             levels = f.levels.clone();
         } else if fresh(&alone) {
             let fv = f.violation.clone();
+            crate::exec::SOFT_TIMEOUT.store(true, Ordering::Relaxed);
+            crate::sched::WAIT_LIMIT_S.store(20, Ordering::Relaxed);
             let mut test = |p: &Plan| -> Option<Violation> {
-                if is_memfault {
+                if is_memfault || crate::exec::ABANDONED.load(Ordering::Relaxed) {
                     // the process dies with the fault: every candidate runs in its own process
                     return if fresh(&mk(p, &fv, vec![], vec![], 0)) { Some(fv.clone()) } else { None };
                 }
@@ -534,7 +536,9 @@ pub fn run_check(spec: &CheckSpec, cfg: &RunCfg) -> i32 {
                 v
             };
             let (mut sm, v0) = shrink::shrink(&f.plan, &f.recorded, &class, &mut test, Duration::from_secs(if thorough { 60 } else { 30 }));
-            if is_memfault {
+            crate::sched::WAIT_LIMIT_S.store(900, Ordering::Relaxed);
+            crate::exec::SOFT_TIMEOUT.store(false, Ordering::Relaxed);
+            if is_memfault || crate::exec::ABANDONED.load(Ordering::Relaxed) {
                 small = sm;
                 v = v0;
                 out_trace = 0;
@@ -906,7 +910,7 @@ pub fn selftest_det_shard(spec_list: &[CheckSpec], seeds: u64, shard: u64, of: u
                 let mut n = 0u64;
                 for (prop, fam) in &fams {
                     // process-level families (real b3sum) are deterministic by construction of their oracles, and slow: skip
-                    if prop == "C12" || fam.name == "c13-e2e" || fam.name == "c08-bigmmap" || fam.name == "c18-streams" || fam.name == "c11-bigwrite" {
+                    if prop == "C12" || fam.name == "c13-e2e" || fam.name == "c08-bigmmap" || fam.name == "c18-streams" || fam.name == "c11-bigwrite" || fam.name == "c07-hugeout" {
                         continue;
                     }
                     let mut i = shard;
